@@ -102,6 +102,30 @@ def template_family(methods, rng, n):
     return out
 
 
+def stateful_regex_family(methods):
+    """String methods given a RegExp object that has HISTORY (a lastIndex left by earlier use or set by the script): what the method
+    returns and what it leaves in lastIndex."""
+    out = []
+    pats = ["b", "a*", "(b)(c)?", "^a", "b$", "x", "", "[ab]", "\\b"]
+    recvs = ['"abcb"', '"abc"', '"aab aab"', '""', '"bbb"']
+    uses = {"search": "R.search(r)", "match": "R.match(r)", "replace": "R.replace(r, '-')", "replace-fn": "R.replace(r, function (m) { return '<' + m + '>'; })", "replaceAll": "R.replaceAll(r, '-')",
+            "split": "R.split(r)", "split-limit": "R.split(r, 2)", "matchAll": "Array.from ? Array.from(R.matchAll(r)).length : 0", "startsWith": "R.startsWith(r)", "includes": "R.includes(r)", "indexOf": "R.indexOf(r)"}
+    for un, u in uses.items():
+        if un.split("-")[0] not in methods:
+            continue
+        for p in pats:
+            for fl in ("", "g", "y", "gy", "gi", "gm"):
+                for li in ("0", "1", "2", "9", "-1"):
+                    for hist in ("r.lastIndex = %s;" % li, "r.test('ab'); r.lastIndex = r.lastIndex + %s;" % li, "r.exec('xbxb'); r.exec('xbxb');"):
+                        if hist.startswith("r.exec") and li != "0":
+                            continue
+                        R = recvs[(len(p) + len(fl) + len(un) + int(li) * 3) % len(recvs)]
+                        src = ("(function () { var R = %s; var r = new RegExp(%s, '%s'); %s var out; try { out = [0, %s]; } catch (e) { out = [1, e && e.name]; } return [out, r.lastIndex, R === %s]; })()"
+                               % (R, json.dumps(p), fl, hist, u, R))
+                        out.append(((un.split("-")[0], "stateful-regex", h([un, p, fl, li, hist])), src))
+    return out
+
+
 def rand_progs(methods, rng, n):
     out = []
     alpha = "abcXYZ 019,.-\t"
@@ -138,6 +162,8 @@ def main(ctx):
         fam = search_family(live)
         progs += fam if not ctx.quick else [x for i, x in enumerate(fam) if i % 2 == ctx.seed % 2]
         progs += template_family(live, fixed, 1500 if ctx.quick else 20000) + template_family(live, rng, 1500 if ctx.quick else 20000)
+        sf = stateful_regex_family(live)
+        progs += sf if not ctx.quick else [x for i, x in enumerate(sf) if i % 2 == ctx.seed % 2]
         progs += rand_progs(live, fixed, 3000 if ctx.quick else 60000)
         progs += rand_progs(live, rng, 3000 if ctx.quick else 140000)
         pairs = diff.run_progs(ep, np_, [p[1] for p in progs], per=500)
